@@ -73,8 +73,174 @@ func genSpec(g *hlib.Rand, i int, maxOps int, thorough bool) Spec {
 		s = corpusSpec(i, s.Seed, CdHookFail)
 	case 2: // D1 witness 3: onward send to an unknown chain (SendPacket hook failure)
 		s = corpusSpec(i, s.Seed, CdOnwardUnknown)
+	case 3: // replays, premature and forged / altered / misrouted relay messages around delivered and refunded packets
+		s = corpusReplays(i, s.Seed)
+	case 4: // scaled binding, native coin, return path, every kind of refusal
+		s = corpusReturn(i, s.Seed)
+	case 5: // agent multi-hop over three chains: success, refused onward packet, return path
+		s = corpusAgent(i, s.Seed)
+	case 6: // token bindings registered in the middle of the history
+		s = corpusBind(i, s.Seed)
 	}
 	return s
+}
+
+// corpusReplays: every relay message that must NOT be accepted, placed where accepting it would move value: a second
+// error acknowledgement while other escrow is there to pay a second refund, a forged error acknowledgement for a delivered
+// packet, a forged success acknowledgement for a refused one, altered packets, misrouted messages, duplicates.
+func corpusReplays(i int, seed uint64) Spec {
+	return Spec{ID: i, Seed: seed, NChains: 2, NUsers: 3, NTok: []int{2, 2},
+		Binds: []Bind{{C: 1, Loc: 1, Src: 0, Ori: 1, Scale: 0}},
+		Mint:  [][]string{{"0", "1", "0", "10000"}, {"0", "0", "0", "5000"}, {"1", "2", "1", "500"}, {"1", "0", "1", "5000"}},
+		Ops: []Op{
+			// stays in flight for the whole history: its fee (9) keeps the packet contract able to pay a relayer fee a second time
+			{ID: 0, K: "T", C: 0, U: 0, Tok: 1, Amt: "10", Dst: 1, Rcv: 2, FTok: 1, Fee: "9"},
+			{ID: 1, K: "T", C: 0, U: 0, Tok: 1, Amt: "1000", Dst: 1, Rcv: 1, FTok: 1, Fee: "5"},
+			{ID: 2, K: "X", FK: FaultRecvAltered, Ref: 1},
+			{ID: 3, K: "X", FK: FaultRecvMisroute, Ref: 1, C: 0},
+			{ID: 4, K: "A", Ref: 1}, // premature: invented success acknowledgement
+			{ID: 5, K: "X", FK: FaultAckMisroute, Ref: 1, C: 1},
+			{ID: 6, K: "R", Ref: 1},
+			{ID: 7, K: "R", Ref: 1}, // duplicate
+			{ID: 8, K: "X", FK: FaultAckForged, Ref: 1},
+			{ID: 9, K: "X", FK: FaultAckAltered, Ref: 1},
+			{ID: 10, K: "A", Ref: 1},
+			{ID: 11, K: "A", Ref: 1}, // duplicate success acknowledgement (second fee payout?)
+			{ID: 12, K: "T", C: 0, U: 0, Tok: 1, Amt: "700", Dst: 1, Rcv: 1, Cd: CdRevert, FTok: 1, Fee: "3"},
+			{ID: 13, K: "R", Ref: 12},
+			{ID: 14, K: "X", FK: FaultAckForged, Ref: 12},
+			{ID: 15, K: "A", Ref: 12},
+			{ID: 16, K: "A", Ref: 12}, // duplicate error acknowledgement: a second refund would come out of the 1000 in escrow
+			{ID: 17, K: "R", Ref: 12},
+			{ID: 18, K: "X", FK: FaultAckMisroute, Ref: 12, C: 1},
+			{ID: 19, K: "T", C: 1, U: 1, Tok: 1, Amt: "200", Dst: 0, Rcv: 0, FTok: 0, Fee: "4"},
+			{ID: 20, K: "X", FK: FaultRecvAltered, Ref: 19},
+			{ID: 21, K: "R", Ref: 19},
+			{ID: 22, K: "X", FK: FaultAckForged, Ref: 19},
+			{ID: 23, K: "A", Ref: 19},
+			{ID: 24, K: "A", Ref: 19},
+			{ID: 25, K: "T", C: 0, U: 0, Tok: 1, Amt: "300", Dst: 1, Rcv: 2, Cd: CdHookFail, FTok: 0, Fee: "2"},
+			{ID: 26, K: "R", Ref: 25},
+			{ID: 27, K: "A", Ref: 25},
+			{ID: 28, K: "A", Ref: 25},
+			{ID: 29, K: "R", Ref: 25},
+			{ID: 30, K: "F", C: 0, U: 0, Ref: 25, Amt: "3"},                    // fee top-up of an acknowledged packet
+			{ID: 31, K: "X", FK: FaultForgedEvent, C: 0, U: 2, Tok: 1, Dst: 1}, // PacketSent emitted by a user contract
+			{ID: 32, K: "X", FK: FaultForgedEvent, C: 1, U: 1, Tok: 1, Dst: 0},
+		}}
+}
+
+// corpusReturn: token 1 of chain 1 = token 1 of chain 0 with scale 2, token 2 of chain 1 = native coin of chain 0.
+func corpusReturn(i int, seed uint64) Spec {
+	return Spec{ID: i, Seed: seed, NChains: 2, NUsers: 3, NTok: []int{2, 2},
+		Binds: []Bind{{C: 1, Loc: 1, Src: 0, Ori: 1, Scale: 2}, {C: 1, Loc: 2, Src: 0, Ori: 0, Scale: 0}},
+		Mint:  [][]string{{"0", "1", "0", "10000"}, {"0", "0", "0", "50000"}, {"1", "0", "1", "5000"}},
+		Ops: []Op{
+			{ID: 0, K: "T", C: 0, U: 0, Tok: 1, Amt: "100", Dst: 1, Rcv: 1, FTok: 0, Fee: "2"},
+			{ID: 1, K: "R", Ref: 0},
+			{ID: 2, K: "A", Ref: 0},
+			{ID: 3, K: "T", C: 1, U: 1, Tok: 1, Amt: "30", Dst: 0, Rcv: 2, Cd: CdRevert, FTok: 1, Fee: "100"}, // burn 3000, refused on chain 0
+			{ID: 4, K: "R", Ref: 3},
+			{ID: 5, K: "A", Ref: 3}, // re-mint
+			{ID: 6, K: "A", Ref: 3},
+			{ID: 7, K: "T", C: 1, U: 1, Tok: 1, Amt: "20", Dst: 0, Rcv: 2, FTok: 1, Fee: "0"},
+			{ID: 8, K: "R", Ref: 7},
+			{ID: 9, K: "A", Ref: 7},
+			{ID: 10, K: "T", C: 0, U: 0, Tok: 0, Amt: "400", Dst: 1, Rcv: 1, FTok: 0, Fee: "7"},
+			{ID: 11, K: "R", Ref: 10},
+			{ID: 12, K: "A", Ref: 10},
+			{ID: 13, K: "T", C: 1, U: 1, Tok: 2, Amt: "150", Dst: 0, Rcv: HEndpoint, FTok: 2, Fee: "1"}, // native coin to a system contract: refused
+			{ID: 14, K: "R", Ref: 13},
+			{ID: 15, K: "A", Ref: 13},
+			{ID: 16, K: "T", C: 1, U: 1, Tok: 2, Amt: "100", Dst: 0, Rcv: 2, Cd: CdOk, FTok: 2, Fee: "0"},
+			{ID: 17, K: "R", Ref: 16},
+			{ID: 18, K: "A", Ref: 16},
+			{ID: 19, K: "T", C: 0, U: 0, Tok: 1, Amt: "50", Dst: 1, Rcv: -1, FTok: 1, Fee: "1"}, // malformed receiver: code 2
+			{ID: 20, K: "R", Ref: 19},
+			{ID: 21, K: "A", Ref: 19},
+			{ID: 22, K: "T", C: 0, U: 0, Tok: 2, Amt: "60", Dst: 1, Rcv: 1, FTok: 1, Fee: "0"},          // token unknown on chain 1: code 2 (nothing to mint: user 0 has no token 2)
+			{ID: 23, K: "T", C: 0, U: 0, Tok: 1, Amt: "0", Dst: 1, Rcv: 1, Cd: CdOk, FTok: 1, Fee: "1"}, // pure call
+			{ID: 24, K: "R", Ref: 23},
+			{ID: 25, K: "A", Ref: 23},
+			{ID: 26, K: "T", C: 0, U: 0, Tok: 1, Amt: "0", Dst: 1, Rcv: 1, Cd: CdRevert, FTok: 1, Fee: "1"}, // failing pure call
+			{ID: 27, K: "R", Ref: 26},
+			{ID: 28, K: "A", Ref: 26},
+			{ID: 29, K: "T", C: 0, U: 0, Tok: 1, Amt: "10001", Dst: 1, Rcv: 1, FTok: 1, Fee: "0"},     // more than the balance
+			{ID: 30, K: "T", C: 1, U: 1, Tok: 1, Amt: "81", Dst: 0, Rcv: 2, FTok: 1, Fee: "0"},        // more than bindings.amount (8000 left)
+			{ID: 31, K: "T", C: 0, U: 0, Tok: 1, Amt: "40", Dst: 1, Rcv: 1, Cb: 1, FTok: 1, Fee: "2"}, // callback address without callback()
+			{ID: 32, K: "R", Ref: 31},
+			{ID: 33, K: "A", Ref: 31},
+			{ID: 34, K: "F", C: 0, U: 0, Ref: 31, Amt: "3"},
+			{ID: 35, K: "T", C: 0, U: 0, Tok: 1, Amt: "5", Dst: 1, Rcv: 1, FTok: 1, Fee: "0"}, // left in flight
+		}}
+}
+
+// corpusBind: no binding at the start.  A packet is sent and REFUSED (token not bound) and refunded; another one is sent,
+// the binding is registered while it is in flight, and it is delivered; the way back; a second binding (native coin, scaled)
+// registered while a packet of that coin is in flight.
+func corpusBind(i int, seed uint64) Spec {
+	return Spec{ID: i, Seed: seed, NChains: 2, NUsers: 3, NTok: []int{2, 2},
+		Mint: [][]string{{"0", "1", "0", "10000"}, {"0", "0", "0", "50000"}, {"1", "0", "1", "5000"}},
+		Ops: []Op{
+			{ID: 0, K: "T", C: 0, U: 0, Tok: 1, Amt: "300", Dst: 1, Rcv: 1, FTok: 1, Fee: "1"},
+			{ID: 1, K: "R", Ref: 0}, // token not bound: code 2
+			{ID: 2, K: "T", C: 0, U: 0, Tok: 1, Amt: "1000", Dst: 1, Rcv: 1, FTok: 1, Fee: "2"},
+			{ID: 3, K: "B", C: 1, Tok: 1, Dst: 0, FTok: 1, Scale: 0},
+			{ID: 4, K: "A", Ref: 0}, // refund of the refused one (the binding exists by now)
+			{ID: 5, K: "R", Ref: 2}, // delivered
+			{ID: 6, K: "A", Ref: 2},
+			{ID: 7, K: "T", C: 1, U: 1, Tok: 1, Amt: "400", Dst: 0, Rcv: 2, FTok: 1, Fee: "3"},
+			{ID: 8, K: "R", Ref: 7},
+			{ID: 9, K: "A", Ref: 7},
+			{ID: 10, K: "T", C: 0, U: 0, Tok: 0, Amt: "70", Dst: 1, Rcv: 1, FTok: 0, Fee: "5"},
+			{ID: 11, K: "B", C: 1, Tok: 2, Dst: 0, FTok: 0, Scale: 2},
+			{ID: 12, K: "R", Ref: 10},
+			{ID: 13, K: "A", Ref: 10},
+			{ID: 14, K: "T", C: 1, U: 1, Tok: 2, Amt: "30", Dst: 0, Rcv: 2, Cd: CdRevert, FTok: 2, Fee: "0"},
+			{ID: 15, K: "R", Ref: 14},
+			{ID: 16, K: "A", Ref: 14},
+			{ID: 17, K: "T", C: 1, U: 1, Tok: 2, Amt: "20", Dst: 0, Rcv: 2, FTok: 2, Fee: "0"},
+			{ID: 18, K: "R", Ref: 17},
+			{ID: 19, K: "A", Ref: 17},
+			{ID: 20, K: "B", C: 0, Tok: 2, Dst: 1, FTok: 2, Scale: 1}, // the other direction, never used
+			{ID: 21, K: "T", C: 0, U: 0, Tok: 1, Amt: "5", Dst: 1, Rcv: 1, FTok: 1, Fee: "0"},
+		}}
+}
+
+// corpusAgent: A.1 -> B.1 (scale 1) -> C.1 (scale 0); the agent contract on B forwards what a packet delivers to it.
+func corpusAgent(i int, seed uint64) Spec {
+	return Spec{ID: i, Seed: seed, NChains: 3, NUsers: 3, NTok: []int{2, 2, 2},
+		Binds: []Bind{{C: 1, Loc: 1, Src: 0, Ori: 1, Scale: 1}, {C: 2, Loc: 1, Src: 1, Ori: 1, Scale: 0}},
+		Mint:  [][]string{{"0", "1", "0", "10000"}, {"0", "0", "0", "5000"}, {"2", "0", "0", "5000"}},
+		Ops: []Op{
+			{ID: 0, K: "T", C: 0, U: 0, Tok: 1, Amt: "70", Dst: 1, Rcv: HAgent, Cd: CdAgent, ARef: 2, ARcv: 0, ADst: 2, AFee: "30", FTok: 1, Fee: "1"},
+			{ID: 1, K: "R", Ref: 0},
+			{ID: 2, K: "A", Ref: 0},
+			{ID: 3, K: "X", FK: FaultRecvMisroute, Ref: 100000, C: 0}, // the onward packet delivered to a chain that is neither source nor destination
+			{ID: 4, K: "R", Ref: 100000},
+			{ID: 5, K: "X", FK: FaultAckMisroute, Ref: 100000, C: 0},
+			{ID: 6, K: "A", Ref: 100000},
+			{ID: 7, K: "T", C: 0, U: 0, Tok: 1, Amt: "70", Dst: 1, Rcv: HAgent, Cd: CdAgent, ARef: 2, ARcv: -1, ADst: 2, AFee: "30", FTok: 1, Fee: "0"},
+			{ID: 8, K: "R", Ref: 7},
+			{ID: 9, K: "A", Ref: 7},
+			{ID: 10, K: "R", Ref: 100007}, // refused on C (malformed receiver)
+			{ID: 11, K: "A", Ref: 100007}, // the agent's callback passes the refund on to user 2
+			{ID: 12, K: "A", Ref: 100007},
+			{ID: 13, K: "T", C: 0, U: 0, Tok: 1, Amt: "50", Dst: 1, Rcv: HAgent, Cd: CdOnwardUnknown, FTok: 1, Fee: "0"},
+			{ID: 14, K: "R", Ref: 13},
+			{ID: 15, K: "A", Ref: 13},
+			{ID: 16, K: "T", C: 2, U: 0, Tok: 1, Amt: "100", Dst: 1, Rcv: HAgent, Cd: CdAgent, ARef: 1, ARcv: 2, ADst: 0, AFee: "0", FTok: 0, Fee: "3"},
+			{ID: 17, K: "R", Ref: 16},
+			{ID: 18, K: "A", Ref: 16},
+			{ID: 19, K: "R", Ref: 100016},
+			{ID: 20, K: "A", Ref: 100016},
+			{ID: 21, K: "T", C: 0, U: 0, Tok: 1, Amt: "70", Dst: 1, Rcv: 1, Cd: CdAgent, ARef: 2, ARcv: 0, ADst: 2, AFee: "30", FTok: 1, Fee: "0"}, // agent call data, receiver is not the agent
+			{ID: 22, K: "R", Ref: 21},
+			{ID: 23, K: "A", Ref: 21},
+			{ID: 24, K: "T", C: 0, U: 0, Tok: 1, Amt: "70", Dst: 1, Rcv: HAgent, Cd: CdAgent, ARef: 2, ARcv: 0, ADst: 2, AFee: "70", FTok: 1, Fee: "0"}, // fee eats everything
+			{ID: 25, K: "R", Ref: 24},
+			{ID: 26, K: "A", Ref: 24},
+		}}
 }
 
 func corpusSpec(i int, seed uint64, cd int) Spec {
@@ -128,6 +294,39 @@ func (r *run) genOp(g *hlib.Rand, id int) Op {
 		return Op{ID: id, K: "A", Ref: pick(done).opID}
 	case x >= 56 && x < 58 && len(pendRecv) > 0: // premature acknowledgement
 		return Op{ID: id, K: "A", Ref: pick(pendRecv).opID}
+	case x >= 69 && x < 72: // governance registers a token binding in the middle of the history (first registration only)
+		for try := 0; try < 6; try++ {
+			c := g.Intn(s.NChains)
+			src := (c + 1 + g.Intn(s.NChains-1)) % s.NChains
+			b := Bind{C: c, Loc: 1 + g.Intn(s.NTok[c]), Src: src, Ori: g.Intn(s.NTok[src] + 1)}
+			if g.Chance(1, 3) {
+				b.Scale = uint8(1 + g.Intn(2))
+			}
+			if r.bindFresh(b) {
+				return Op{ID: id, K: "B", C: b.C, Tok: b.Loc, Dst: b.Src, FTok: b.Ori, Scale: b.Scale}
+			}
+		}
+	case x >= 63 && x < 69 && len(r.sent) > 0: // a relay message that is not authentic (Fault)
+		n := s.NChains
+		switch k := g.Intn(6); k {
+		case FaultForgedEvent:
+			c := g.Intn(n)
+			return Op{ID: id, K: "X", FK: k, C: c, U: g.Intn(s.NUsers), Tok: 1 + g.Intn(s.NTok[c]), Dst: (c + 1 + g.Intn(n-1)) % n}
+		case FaultRecvAltered:
+			if len(pendRecv) > 0 {
+				return Op{ID: id, K: "X", FK: k, Ref: pick(pendRecv).opID}
+			}
+		case FaultAckForged, FaultAckAltered:
+			if len(pendAck) > 0 {
+				return Op{ID: id, K: "X", FK: k, Ref: pick(pendAck).opID}
+			}
+		case FaultRecvMisroute:
+			sp := pick(r.sent)
+			return Op{ID: id, K: "X", FK: k, Ref: sp.opID, C: (sp.dst + 1 + g.Intn(n-1)) % n}
+		case FaultAckMisroute:
+			sp := pick(r.sent)
+			return Op{ID: id, K: "X", FK: k, Ref: sp.opID, C: (sp.src + 1 + g.Intn(n-1)) % n}
+		}
 	case x >= 58 && x < 63 && len(r.sent) > 0: // add fee (any state of the packet, sometimes a packet that does not exist)
 		sp := pick(r.sent)
 		op := Op{ID: id, K: "F", C: sp.src, U: g.Intn(s.NUsers), Ref: sp.opID, Amt: fmt.Sprint(1 + g.Intn(9))}
@@ -165,7 +364,7 @@ func (r *run) genOp(g *hlib.Rand, id int) Op {
 	if g.Chance(4, 5) {
 		type route struct{ c, tok, dst int }
 		var routes []route
-		for _, b := range s.Binds {
+		for _, b := range r.binds {
 			routes = append(routes, route{b.Src, b.Ori, b.C}, route{b.C, b.Loc, b.Src})
 		}
 		for try := 0; try < 6 && len(routes) > 0; try++ {
